@@ -94,6 +94,13 @@ CLAIMED["C06"] = dict(
    ref="DESIGN.md §4 C06")
 
 
+CLAIMED["C09"] = dict(
+   text="Decides the case-by-case agreement between the separately written parser and printer switch statements, the structural precondition of the round trip for every format string at once: for the date (cardinal and Roman) and time families every specifier has a working case on both sides; the parser stores into the scratch field the printer prints from; where the printer honours the padding modifier the parser reads with a padding-aware reader; the limits the parser accepts contain the range the printer can produce for valid values (month 12, day 31, weekday 7, count 5, day-of-year 366, week 53, hour 23, minute 59, second 60, quarter 4); every call of the fixed-width digit printers asks for a width the helper has digits for (interval analysis of the width argument); the 12-hour clock as printed (digits and AM/PM marker, folded over the 24 hours) reads back through the parser's rule as the same hour.",
+   note="parse(format(x)) = x for all values and all format strings is NOT decided: it also depends on computed digits, adjacent variable-width fields and the calendar guess from the set of parsed fields. The tokenizer shared by both sides is covered by C10.",
+   technique="static analysis: sibling cross-check of switch tables (case sets, field read/write sets, callee capabilities, literal limits), interval analysis of width arguments, table decoding by constant folding over 24 values",
+   ref="DESIGN.md §4 C09")
+
+
 def main():
     props = [json.loads(l)["id"] for l in open(os.path.join(HERE, "properties.jsonl"))]
     checks = []
